@@ -331,6 +331,11 @@ K("awkward_ListOffsetArray_reduce_nonlocal_preparenext_64",
          "L1": ["forall(q, 0, length, offsetscopy[q] >= offsets[q])", "maxnextparents[0] >= 0"],
          "L1.0": ["0 <= i", "forall(q, 0, length, offsetscopy[q] >= offsets[q])", "maxnextparents[0] >= 0"]},
   ensures_ok=["maxnextparents[0] >= 0"],
+  # C03 (reducing along an outer axis combines the elements with the same coordinates): element number k taken from
+  # list i is the next unconsumed element of that list, and its group is (group of list i, position within the list)
+  store_asserts={"nextcarry": ["at == k", "value == offsetscopy[i]", "offsets[i] <= value and value < offsets[i + 1]"],
+                 "nextparents": ["at == k", "value == parents[i] * maxcount + (nextcarry[k] - offsets[i])"],
+                 "offsetscopy": ["at == i", "value == offsetscopy[i] + 1"]},
   notes="maxnextparents >= 0 is what sizes nextstarts (maxnextparents + 1) and the next level's outlength; termination of the outer while depends on sum(counts) == nextlen (caller's obligation); not proved here",
   serves=["C03", "C12", "C13"])
 
